@@ -196,4 +196,8 @@ pub trait L {
     fn l_touch(&mut self, x: u8) -> u32 {
         self.l_num(x) + 1
     }
+    /// a `Pin<&mut Self>` provided method which lends nothing (it only looks at a lent string)
+    fn l_touch_pin(self: std::pin::Pin<&mut Self>, x: u8) -> u32 {
+        self.as_ref().get_ref().l_str(x).len() as u32 + 29
+    }
 }
